@@ -96,7 +96,11 @@ RoundTripOK(e) ==
 
 Code(e) ==
   IF e.direct.st = "panic" \/ e.words.st = "panic" \/ e.words.out_st = "panic" \/ e.words.re_st = "panic" THEN 4 + 1
-  ELSE IF e.direct.st = "unbuildable" THEN 8
+  \* the harness could not even construct one of the instructions as data (an enumerant / mask bit of the pinned grammar
+  \* that this tree's types do not have): when the input is conforming and the tree does not load it as the
+  \* specification prescribes, that is a verdict on the words path; otherwise it is an error of the harness
+  ELSE IF e.direct.st = "unbuildable" THEN
+       (IF InputConforms(e) /\ ~WordsOK(e, L!Load(e.insts)) THEN 1 ELSE 8)
   ELSE LET exp == L!Load(e.insts)
            c == (IF DirectOK(e, exp) /\ WordsOK(e, exp) THEN 0 ELSE 1)
                 + (IF e.words.st = "ok" /\ ~Excluded(e) /\ ~RoundTripOK(e) THEN 2 ELSE 0)
